@@ -15,7 +15,7 @@ decode(data) -> ("OK", value) | ("ILL", class) | ("UNSPEC", why)
           0 text -> datetime; 1 int/float32/float64 -> epoch_second; 2, 3 byte string -> ('num', n, bigint);
           4, 5 [exponent, mantissa] -> ('num', m*10^e | m*2^e, bigdec | bigfloat);
           21, 22, 23 byte string -> base64url, base64, base16; 32, 33, 34 text -> uri, base64url, base64;
-          64..86 byte string -> array of numbers (RFC 8746; 68 = clamped).
+          64..86 except 76 (reserved) and 83 (binary128) byte string -> array of numbers (RFC 8746; 68 = clamped).
 
 encodings(value, mode) yields every legal encoding of an encoder-side value ("full") or one of each
 form ("reduced"); see the function for the value kinds it takes.
@@ -126,6 +126,8 @@ def _string_body(st, mt, arg):
 
 _TA = {}  # RFC 8746 tag -> (struct code without byte order, size, little endian?, kind)
 for _t in range(64, 88):
+    if _t == 76:
+        continue          # reserved (would be "sint8, little endian")
     _f = (_t >> 4) & 1
     _s = (_t >> 3) & 1
     _e = (_t >> 2) & 1
@@ -270,7 +272,10 @@ def _apply_tag(st, tag, c, cpos):
         if abs(e[1]) > MAX_EXP:
             return None
         base = 10 if tag == 4 else 2
-        return ('num', Fraction(mant) * Fraction(base) ** e[1], mv.TAG_BIGDEC if tag == 4 else mv.TAG_BIGFLOAT)
+        r = ('num', Fraction(mant) * Fraction(base) ** e[1], mv.TAG_BIGDEC if tag == 4 else mv.TAG_BIGFLOAT)
+        if m[0] == 'int' and not (mv.INT64_MIN <= mant <= mv.UINT64_MAX):
+            r += ('beyond64',)     # mantissa given as a plain integer that neither int64 nor uint64 holds
+        return r
     if tag in (21, 22, 23):
         if k != 'bin':
             return None
@@ -356,6 +361,8 @@ def _string_encodings(mt, data, mode):
     if mode == "min":
         return
     cuts = _utf8_boundaries(data) if mt == 3 else list(range(n + 1))
+    if len(cuts) > 40:       # long strings: the splits next to both ends and the middle one
+        cuts = cuts[:3] + [cuts[len(cuts) // 2]] + cuts[-3:]
     for c in cuts:
         a, b = data[:c], data[c:]
         for h1 in heads(mt, len(a), cm):
@@ -363,19 +370,7 @@ def _string_encodings(mt, data, mode):
                 yield ind + h1 + a + h2 + b + b"\xff"
 
 
-def _product(lists, limit):
-    """All concatenations choosing one alternative per position, total length <= limit."""
-    res = [b""]
-    for alts in lists:
-        nxt = []
-        for pre in res:
-            for a in alts:
-                if len(pre) + len(a) <= limit:
-                    nxt.append(pre + a)
-        res = nxt
-        if not res:
-            break
-    return res
+_product = mv.product
 
 
 def encodings(v, mode="full", limit=1 << 30, child_mode=None, modes=None, path=()):
@@ -401,9 +396,9 @@ def encodings(v, mode="full", limit=1 << 30, child_mode=None, modes=None, path=(
     """
     if modes is not None:
         mode = modes.get(path, "one")
-    if child_mode is None:
-        child_mode = "reduced" if mode == "full" else "min"
     one = mode == "one"
+    if child_mode is None:
+        child_mode = "reduced" if mode == "full" else ("one" if one else "min")
     if one:
         mode = "min"
     k, d, t = v[0], v[1], v[2]
@@ -458,6 +453,10 @@ def encodings(v, mode="full", limit=1 << 30, child_mode=None, modes=None, path=(
             ms = []
         if not ms or mode == "full":
             ms += list(encodings(('bignum', m, 0), "min"))
+            if mode == "full":
+                mag = m if m >= 0 else -1 - m
+                raw = mag.to_bytes((mag.bit_length() + 7) // 8, "big")
+                ms += [th + heads(2, len(raw), "min")[0] + raw for th in heads(6, 2 if m >= 0 else 3)[1:]]
         body = []
         for hd in heads(4, 2, "full" if mode == "full" else "min"):
             body += _product([[hd], es, ms], limit)
@@ -475,7 +474,7 @@ def encodings(v, mode="full", limit=1 << 30, child_mode=None, modes=None, path=(
     elif k == 'obj':
         kids = []
         for i, (kk, vv) in enumerate(d):
-            kids.append(list(encodings(('str', kk, 0), "min" if child_mode == "min" else "reduced", limit, None, modes, path + (i, 'k'))))
+            kids.append(list(encodings(('str', kk, 0), child_mode if child_mode in ("min", "one") else "reduced", limit, None, modes, path + (i, 'k'))))
             kids.append(list(encodings(vv, child_mode, limit, None, modes, path + (i, 'v'))))
         body = []
         hs = heads(5, len(d)) if mode != "min" else heads(5, len(d), "min")
